@@ -596,6 +596,35 @@ def check_cases(col):
                                   % (short(kw), t, 'holds' if want_ok else 'fails (expected %s)' % ('the default' if dflt is not None else 'a CheckError'), got), None)
 
 
+def check_with_default_stops_at_the_first_failed_condition(col):
+    """a Check with a default hands out the default as soon as a condition fails: later conditions are not tried on a value that already
+    failed (a type= guard in front of a set-valued one_of= and an unhashable target; validators that would raise or be costly)"""
+    log = []
+
+    def logged(v):
+        log.append(v)
+        return True
+    cases = [
+        ('type guard before a set one_of, list target', lambda d: Check(type=str, one_of={'a', 'b'}, default=d), ['a']),
+        ('type guard before a set one_of, dict target', lambda d: Check(type=str, one_of={'a', 'b'}, default=d), {'k': 1}),
+        ('type guard before a frozenset one_of, set target', lambda d: Check(type=(str, int), one_of=frozenset([1, 'a']), default=d), {1}),
+        ('type guard before a dict one_of', lambda d: Check(type=str, one_of={'a': 1}, default=d), [1]),
+        ('type guard before a validator', lambda d: Check(type=int, validate=logged, default=d), 'a'),
+        ('equal_to before a validator', lambda d: Check(equal_to=1, validate=logged, default=d), 2),
+        ('below a path', lambda d: Check('v', type=str, one_of={'a'}, default=d), {'v': ['a']}),
+        ('as a filter key', lambda d: [Check(type=str, one_of={'a', 'b'}, default=d)], [['a'], 'a', {'x': 1}]),
+    ]
+    for desc, mk, target in cases:
+        del log[:]
+        got = call(G, target, mk(SENT))
+        col.case(('check-default-first-failure', desc), True)
+        col.count('check_evaluations')
+        want_ok = (got.ok and got.value is SENT) if desc != 'as a filter key' else (got.ok and got.value == [SENT, 'a', SENT] and got.value[0] is SENT)
+        if not want_ok or log:
+            col.violation('C10/check-default-not-returned:later-condition-tried-after-the-first-failure', '%s: %s on %r: %r%s ; expected the default'
+                          % (desc, short(mk('D')), target, got, (' ; the validator was called with %r' % log) if log else ''), None)
+
+
 def reflected_operands(col, rng):
     """`x & m` where only the RIGHT operand is an M expression / combinator (x is a type, a Val, a predicate, a tuple pattern: Python
     falls back to the right operand's reflected method): wherever Python allows the expression, it denotes And(x, m) - x is
@@ -793,6 +822,7 @@ def run(ctx):
         combinators_under_fill(col)
         reflected_operands(col, rng)
         check_cases(col)
+        check_with_default_stops_at_the_first_failed_condition(col)
         col.require('check_evaluations', 1000)
         # every tree of depth 1 over two atoms of each kind is covered by the random part below; make
         # sure small shapes are dense: many depth-1 trees
